@@ -1,8 +1,7 @@
-(* EditProofsContent2.v -- C11, part 5: I_content for change_content_stream, change_page_content and
-   add_to_page_content on "plain" pages (direct dictionary objects whose Contents is absent, a reference that directly
-   names a stream, or a direct array of such references: the complement of the class C11-content-indirect), with the
-   frame of each call.  A page that shares the rewritten stream is the class C11-content-shared: the theorems say which
-   pages are unaffected (those that do not name the rewritten stream) and what the others show. *)
+(* EditProofsContent2.v -- C11, part 5: I_content for change_content_stream, change_page_content (the code after the repairs of
+   C11-content-indirect and C11-content-shared) and add_to_page_content, on EVERY shape of the page and of its Contents entry
+   (the page possibly behind reference objects; Contents a stream or an array, items and entry possibly behind references, or
+   something else altogether), with the frame of each call. *)
 From LV Require Import Base.Bytes Model.Obj Model.DocQ Model.PageTree Model.Traverse Model.Edit Model.StreamFilt
   Model.Writer Gen.Consts Spec.RenumberSpec Spec.AbstractDoc Proofs.RenumberProofsMap Proofs.EditProofs
   Proofs.EditProofsContent.
@@ -43,246 +42,148 @@ Proof.
   - intro H. exfalso. exact (H sd c0 eq_refl).
 Qed.
 
+Lemma existsb_false_in {A} (f : A -> bool) l x : existsb f l = false -> In x l -> f x = false.
+Proof.
+  intros H Hin. destruct (f x) eqn:E; [|reflexivity].
+  assert (existsb f l = true) by (apply existsb_exists; exists x; split; assumption). congruence.
+Qed.
+
+(* the stream a page shows alone is a stream object *)
+Lemma stream_id_of_is_stream m x sid : stream_id_of m x = Some sid -> exists sd c0, lookup m sid = Some (OStream sd c0).
+Proof.
+  unfold stream_id_of. destruct (dereference m x) as [[[r0|] [| | | | | | | |sd b0|]]|] eqn:D; try discriminate.
+  intro H; inversion H; subst r0. exists sd, b0. eapply dereference_ends; exact D.
+Qed.
+
+Lemma single_stream_is_stream m x sid : single_stream m x = Some sid -> exists sd c0, lookup m sid = Some (OStream sd c0).
+Proof.
+  unfold single_stream. destruct (dereference m x) as [[r y]|]; [|apply stream_id_of_is_stream].
+  destruct y as [| | | | | |l| | |]; try apply stream_id_of_is_stream.
+  destruct l as [|x1 [|x2 l]]; try discriminate. apply stream_id_of_is_stream.
+Qed.
+
 Section Content2.
   Variable decode : dict -> bytes -> bytes.
 
-  (* what a list of content items shows when the stream [id] now decodes to [nd] and every other stream is as in [m] *)
-  Fixpoint expect (m : objmap) (id : oid) (nd : bytes) (l : list obj) : option bytes :=
-    match l with
-    | [] => Some []
-    | x :: l' =>
-      match (if is_ref_to id x then Some nd else stream_data decode m x), expect m id nd l' with
-      | Some a, Some b => Some (a ++ b)
-      | _, _ => None
-      end
-    end.
-
-  Lemma expect_unused m id nd l :
-    ~ In (ORef (fst id) (snd id)) l -> expect m id nd l = concat_streams decode m l.
-  Proof.
-    induction l as [|x l IH]; intro H; cbn [expect concat_streams]; [reflexivity|].
-    rewrite IH by (intro Hin; apply H; right; exact Hin).
-    replace (is_ref_to id x) with false; [reflexivity|].
-    symmetry. destruct x as [| | | | | | | | |i g]; try reflexivity. cbn [is_ref_to].
-    apply oid_eqb_neq. intro E. apply H. left. subst id. reflexivity.
-  Qed.
-
-  Lemma expect_single m id nd : expect m id nd [ORef (fst id) (snd id)] = Some nd.
-  Proof.
-    cbn [expect is_ref_to]. destruct id as [i g]. cbn [fst snd]. rewrite oid_eqb_refl, app_nil_r. reflexivity.
-  Qed.
-
-  (* the stream [id] of [m] is replaced by (sd', c') *)
-  Lemma concat_streams_update m id sd c0 sd' c' l :
-    lookup m id = Some (OStream sd c0) -> Forall (stream_ref m) l ->
-    concat_streams decode (update m id (OStream sd' c')) l = expect m id (decode sd' c') l.
-  Proof.
-    intros L F. induction F as [|x l [i [g [sd1 [c1 [-> L1]]]]] F IH]; cbn [concat_streams expect]; [reflexivity|].
-    rewrite IH. cbn [is_ref_to]. destruct (oid_eqb (i, g) id) eqn:E.
-    - apply oid_eqb_eq in E. subst id.
-      rewrite (stream_data_ref decode _ i g sd' c'); [reflexivity|].
-      rewrite lookup_update, oid_eqb_refl, L. reflexivity.
-    - rewrite (stream_data_ref decode _ i g sd1 c1), (stream_data_ref decode m i g sd1 c1 L1); [reflexivity|].
-      rewrite lookup_update. rewrite oid_eqb_sym, E. exact L1.
-  Qed.
-
-  (* I_content for change_content_stream: every plain page shows its items with the rewritten stream decoding to the new
-     stream; pages that do not name it are unchanged, a page whose only item it is shows exactly that *)
+  (* I_content for change_content_stream (any page, any shape): a page that does not show the stream keeps its content; a
+     page that shows this stream alone shows exactly the new data; a page whose content is an array shows its items with
+     every item that leads to the stream replaced by the new data ([expect]) *)
   Theorem ccs_content O d id c sd c0 :
     lookup (d_objects d) id = Some (OStream sd c0) ->
     let s' := rewritten_stream O sd c0 c in
     let d' := change_content_stream O d id c in
-    forall q qd, lookup (d_objects d) q = Some (ODict qd) -> plain_contents (d_objects d) qd ->
-      lookup (d_objects d') q = Some (ODict qd) /\
-      page_content decode (d_objects d') q = expect (d_objects d) id (decode (s_dict s') (s_content s')) (cur_list qd) /\
-      (~ In (ORef (fst id) (snd id)) (cur_list qd) ->
-         page_content decode (d_objects d') q = page_content decode (d_objects d) q) /\
-      (cur_list qd = [ORef (fst id) (snd id)] ->
-         page_content decode (d_objects d') q = Some (decode (s_dict s') (s_content s'))).
+    let nd := decode (s_dict s') (s_content s') in
+    (forall q b, page_shows_stream (d_objects d) id q = false ->
+                 page_content decode (d_objects d) q = Some b -> page_content decode (d_objects d') q = Some b) /\
+    (forall q qd x, get_dictionary (d_objects d) q = Some qd -> dict_get qd K_Contents = Some x ->
+                    single_stream (d_objects d) x = Some id -> page_content decode (d_objects d') q = Some nd) /\
+    (forall q qd x r l b, get_dictionary (d_objects d) q = Some qd -> dict_get qd K_Contents = Some x ->
+                          dereference (d_objects d) x = Some (r, OArr l) -> page_content decode (d_objects d) q = Some b ->
+                          page_content decode (d_objects d') q = expect decode (d_objects d) id nd l).
   Proof.
-    intros L s' d' q qd Lq Pq. unfold d'. rewrite (ccs_stream O d id c sd c0 L). fold s'.
-    cbn [d_objects with_objs]. set (m := d_objects d) in *. unfold stream_obj.
-    assert (Hq : q <> id) by (intro E; subst q; congruence).
-    assert (Lq' : lookup (update m id (OStream (s_dict s') (s_content s'))) q = Some (ODict qd)).
-    { rewrite lookup_update. replace (oid_eqb id q) with false; [exact Lq|]. symmetry. apply oid_eqb_neq. congruence. }
-    assert (Hmain : page_content decode (update m id (OStream (s_dict s') (s_content s'))) q =
-                    expect m id (decode (s_dict s') (s_content s')) (cur_list qd)).
-    { unfold page_content. rewrite (get_dictionary_direct _ q qd Lq'). change S_Contents with K_Contents.
-      pose proof (cur_list_plain m qd Pq) as Hcur. unfold cur_list in *. unfold plain_contents in Pq.
-      destruct (dict_get qd K_Contents) as [x|]; [|reflexivity].
-      destruct x as [| | | | | |l| | |i g]; try (destruct Pq as [i0 [g0 [sd1 [c1 [Ex _]]]]]; discriminate).
-      - rewrite dereference_nonref by exact I. apply (concat_streams_update m id sd c0); assumption.
-      - destruct Pq as [i0 [g0 [sd1 [c1 [Ex Ls]]]]]. inversion Ex; subst i0 g0.
-        cbn [expect is_ref_to]. destruct (oid_eqb (i, g) id) eqn:E.
-        + apply oid_eqb_eq in E. subst id.
-          rewrite (dereference_one_hop _ i g (OStream (s_dict s') (s_content s'))); [rewrite app_nil_r; reflexivity| |exact I].
-          rewrite lookup_update, oid_eqb_refl, L. reflexivity.
-        + rewrite (dereference_one_hop _ i g (OStream sd1 c1)); [|rewrite lookup_update, oid_eqb_sym, E; exact Ls | exact I].
-          rewrite (stream_data_ref decode m i g sd1 c1 Ls), app_nil_r. reflexivity. }
-    split; [exact Lq'|]. split; [exact Hmain|]. split.
-    - intro Hn. rewrite Hmain, (expect_unused m id _ _ Hn). symmetry. apply page_content_cur; assumption.
-    - intro Hc. rewrite Hmain, Hc. apply expect_single.
+    intros L s' d' nd. unfold d'. rewrite (ccs_stream O d id c sd c0 L). fold s'. cbn [d_objects with_objs].
+    unfold stream_obj. set (m := d_objects d) in *.
+    pose proof (grows_update m id (OStream sd c0) (OStream (s_dict s') (s_content s')) L I I) as G.
+    split; [|split].
+    - intros q b Hs Hb. exact (page_content_unshown decode m _ id sd c0 _ _ G q b Hs Hb).
+    - intros q qd x Gq Ec Hs. exact (page_content_single decode m _ id sd c0 _ _ G q qd x Gq Ec Hs).
+    - intros q qd x r l b Gq Ec D Hb. exact (page_content_inplace_array decode m _ id sd c0 _ _ G q qd x r l b Gq Ec D Hb).
   Qed.
 
   (* ---------- change_page_content ---------- *)
-  (* the stream change_page_content rewrites in place, if any *)
-  Definition rewritten (pd : dict) : option oid :=
-    match dict_get pd K_Contents with
-    | Some (ORef i g) => Some (i, g)
-    | Some (OArr [ORef i g]) => Some (i, g)
-    | _ => None
-    end.
-
-  Definition unshared (pd qd : dict) : Prop :=
-    match rewritten pd with Some id => ~ In (ORef (fst id) (snd id)) (cur_list qd) | None => True end.
-
-  (* I_content for change_page_content on a plain page that has a Contents entry: the call succeeds; the page then shows
-     exactly what the ONE stream that was written decodes to (that stream is either the old one rewritten by
-     set_plain_content + compress, or a fresh uncompressed stream holding the content); every other plain page that does
-     not name the rewritten stream shows what it showed before; the trailer is unchanged. *)
-  Theorem cpc_content O d page pd c x :
-    doc_wf d -> alloc_ok d -> (d_max_id d < Renumber.U32_MAX)%N ->
-    lookup (d_objects d) page = Some (ODict pd) -> plain_contents (d_objects d) pd ->
-    dict_get pd K_Contents = Some x ->
-    exists d' sd' c',
-      change_page_content O d page c = (d', OOk) /\
-      ((exists id sd c0, rewritten pd = Some id /\ lookup (d_objects d) id = Some (OStream sd c0) /\
-                         OStream sd' c' = stream_obj (rewritten_stream O sd c0 c)) \/
-       (rewritten pd = None /\ OStream sd' c' = new_stream c)) /\
-      page_content decode (d_objects d') page = Some (decode sd' c') /\
-      (forall q qd, q <> page -> lookup (d_objects d) q = Some (ODict qd) -> plain_contents (d_objects d) qd ->
-                    unshared pd qd ->
-                    page_content decode (d_objects d') q = page_content decode (d_objects d) q) /\
+  (* the page gets a new stream as its Contents *)
+  Lemma replace_page_content_content d page pd t c :
+    alloc_ok d -> (d_max_id d < Renumber.U32_MAX)%N ->
+    get_dictionary (d_objects d) page = Some pd -> get_object_mut_id (d_objects d) page = Some t ->
+    lookup (d_objects d) t = Some (ODict pd) ->
+    exists d',
+      replace_page_content d page c = (d', OOk) /\
+      page_content decode (d_objects d') page = Some (decode (new_dict c) c) /\
+      (forall q b, get_object_mut_id (d_objects d) q <> Some t ->
+                   page_content decode (d_objects d) q = Some b -> page_content decode (d_objects d') q = Some b) /\
       d_trailer d' = d_trailer d.
   Proof.
-    intros W A Hmax L P Ec. remember (d_objects d) as m eqn:Em.
-    (* the in-place case, shared by Contents = reference and Contents = [reference] *)
-    assert (InPlace : forall i g, rewritten pd = Some (i, g) -> cur_list pd = [ORef i g] ->
-              stream_ref m (ORef i g) ->
-              change_page_content O d page c = (change_content_stream O d (i, g) c, OOk) ->
-              exists d' sd' c',
-                change_page_content O d page c = (d', OOk) /\
-                ((exists id sd c0, rewritten pd = Some id /\ lookup m id = Some (OStream sd c0) /\
-                                   OStream sd' c' = stream_obj (rewritten_stream O sd c0 c)) \/
-                 (rewritten pd = None /\ OStream sd' c' = new_stream c)) /\
-                page_content decode (d_objects d') page = Some (decode sd' c') /\
-                (forall q qd, q <> page -> lookup m q = Some (ODict qd) -> plain_contents m qd -> unshared pd qd ->
-                              page_content decode (d_objects d') q = page_content decode m q) /\
-                d_trailer d' = d_trailer d).
-    { intros i g Hr Hc [i0 [g0 [sd [c0 [Ex Ls]]]]] Hrun. inversion Ex; subst i0 g0.
-      set (s' := rewritten_stream O sd c0 c).
-      exists (change_content_stream O d (i, g) c), (s_dict s'), (s_content s').
-      split; [exact Hrun|]. split; [left; exists (i, g), sd, c0; repeat split; assumption|].
-      rewrite Em in Ls, L.
-      destruct (ccs_content O d (i, g) c sd c0 Ls page pd L ltac:(rewrite <- Em; exact P)) as [_ [_ [_ H4]]].
-      split; [apply H4; exact Hc|]. split.
-      - intros q qd Hq Lq Pq Hu. rewrite Em in Lq.
-        destruct (ccs_content O d (i, g) c sd c0 Ls q qd Lq ltac:(rewrite <- Em; exact Pq)) as [_ [_ [H3 _]]].
-        rewrite Em. apply H3. unfold unshared in Hu. rewrite Hr in Hu. exact Hu.
-      - apply ccs_frame. }
-    (* the fresh-stream case *)
-    assert (Fresh : rewritten pd = None -> (exists l, x = OArr l) ->
-              change_page_content O d page c =
-                (match add_object d (new_stream c) with
-                 | None => (d, OPanic)
-                 | Some (d1, nid) =>
-                   match set_page_entry (d_objects d1) page K_Contents (ORef (fst nid) (snd nid)) with
-                   | Some m2 => (with_objs d1 m2, OOk)
-                   | None => (d1, OOk)
-                   end
-                 end) ->
-              exists d' sd' c',
-                change_page_content O d page c = (d', OOk) /\
-                ((exists id sd c0, rewritten pd = Some id /\ lookup m id = Some (OStream sd c0) /\
-                                   OStream sd' c' = stream_obj (rewritten_stream O sd c0 c)) \/
-                 (rewritten pd = None /\ OStream sd' c' = new_stream c)) /\
-                page_content decode (d_objects d') page = Some (decode sd' c') /\
-                (forall q qd, q <> page -> lookup m q = Some (ODict qd) -> plain_contents m qd -> unshared pd qd ->
-                              page_content decode (d_objects d') q = page_content decode m q) /\
-                d_trailer d' = d_trailer d).
-    { intros Hr _ Hrun.
-      set (nid := ((d_max_id d + 1)%N, 0%N)).
-      assert (Hfresh : forall y, has_obj m y -> y <> nid).
-      { intros y Hy E. subst y m. apply A in Hy. cbn [fst nid] in Hy. lia. }
-      set (m1 := insert m nid (new_stream c)).
-      set (d1 := with_objs (with_max d (d_max_id d + 1)) m1).
-      assert (Hadd : add_object d (new_stream c) = Some (d1, nid)).
-      { unfold add_object, new_object_id. apply N.ltb_lt in Hmax. rewrite Hmax. unfold d1, m1. rewrite Em. reflexivity. }
-      assert (L1 : forall y, y <> nid -> lookup m1 y = lookup m y).
-      { intros y Hy. unfold m1. rewrite lookup_insert. replace (oid_eqb nid y) with false; [reflexivity|].
-        symmetry. apply oid_eqb_neq. congruence. }
-      assert (Hpn : page <> nid) by (apply Hfresh; eapply lookup_has; exact L).
-      set (pd' := dict_set pd K_Contents (ORef (fst nid) (snd nid))).
-      set (m2 := update m1 page (ODict pd')).
-      assert (Lp1 : lookup m1 page = Some (ODict pd)) by (rewrite L1 by exact Hpn; exact L).
-      assert (Lp2 : lookup m2 page = Some (ODict pd')).
-      { unfold m2. rewrite lookup_update, oid_eqb_refl, Lp1. reflexivity. }
-      assert (L2 : forall y, y <> page -> y <> nid -> lookup m2 y = lookup m y).
-      { intros y Hy Hn. unfold m2. rewrite lookup_update. replace (oid_eqb page y) with false; [apply L1; exact Hn|].
-        symmetry. apply oid_eqb_neq. congruence. }
-      assert (Lsm : forall i g sd c0, lookup m (i, g) = Some (OStream sd c0) -> lookup m2 (i, g) = Some (OStream sd c0)).
-      { intros i g sd c0 H. rewrite L2; [exact H| |].
-        - intro E. rewrite E in H. congruence.
-        - apply Hfresh. eapply lookup_has; exact H. }
-      assert (Ln : lookup m2 nid = Some (new_stream c)).
-      { unfold m2. rewrite lookup_update. replace (oid_eqb page nid) with false by (symmetry; apply oid_eqb_neq; exact Hpn).
-        unfold m1. rewrite lookup_insert, oid_eqb_refl. reflexivity. }
-      exists (with_objs d1 m2), (new_dict c), c.
-      split.
-      { rewrite Hrun, Hadd. unfold set_page_entry. change (d_objects d1) with m1.
-        rewrite (get_object_mut_id_direct m1 page pd Lp1), Lp1. reflexivity. }
-      split; [right; split; [exact Hr | reflexivity]|]. split; [|split; [|reflexivity]].
-      - change (d_objects (with_objs d1 m2)) with m2. unfold page_content.
-        rewrite (get_dictionary_direct m2 page pd' Lp2). change S_Contents with K_Contents.
-        unfold pd'. rewrite dict_get_set_same.
-        replace (ORef (fst nid) (snd nid)) with (ORef (d_max_id d + 1) 0) by reflexivity.
-        rewrite (dereference_one_hop m2 (d_max_id d + 1)%N 0%N (new_stream c) Ln I). reflexivity.
-      - intros q qd Hq Lq Pq _. change (d_objects (with_objs d1 m2)) with m2.
-        assert (Hqn : q <> nid) by (apply Hfresh; eapply lookup_has; exact Lq).
-        apply (page_content_agree decode m m2 q qd Lq); [rewrite L2 by assumption; exact Lq | exact Pq | exact Lsm]. }
-    (* case analysis on the Contents entry *)
-    assert (Hgd : get_dictionary m page = Some pd) by (apply get_dictionary_direct; exact L).
-    unfold plain_contents in P. rewrite Ec in P.
-    destruct x as [| | | | | |l| | |i g]; try (destruct P as [i0 [g0 [sd [c0 [Ex _]]]]]; discriminate).
-    - (* an array *)
-      destruct l as [|x1 [|x2 l]].
-      + apply Fresh; [unfold rewritten; rewrite Ec; reflexivity | eexists; reflexivity|].
-        unfold change_page_content. rewrite <- Em, Hgd, Ec. reflexivity.
-      + apply Forall_inv in P. destruct P as [i [g [sd [c0 [-> Ls]]]]].
-        apply (InPlace i g).
-        * unfold rewritten. rewrite Ec. reflexivity.
-        * unfold cur_list. rewrite Ec. reflexivity.
-        * exists i, g, sd, c0. split; [reflexivity | exact Ls].
-        * unfold change_page_content. rewrite <- Em, Hgd, Ec. reflexivity.
-      + apply Fresh; [unfold rewritten; rewrite Ec; destruct x1; reflexivity | eexists; reflexivity|].
-        unfold change_page_content. rewrite <- Em, Hgd, Ec. destruct x1; reflexivity.
-    - (* a reference to a stream *)
-      apply (InPlace i g).
-      + unfold rewritten. rewrite Ec. reflexivity.
-      + unfold cur_list. rewrite Ec. reflexivity.
-      + exact P.
-      + unfold change_page_content. rewrite <- Em, Hgd, Ec. reflexivity.
+    intros A Hmax Gp Tp Lt. set (m := d_objects d) in *.
+    set (v := ORef (d_max_id d + 1) 0).
+    destruct (add_then_set d page pd t v c A Hmax Gp Tp Lt) as [Ha [Hs [G Ln]]].
+    cbv zeta in Ha, Hs, G, Ln. fold m in Ha, Hs, G, Ln.
+    set (m2 := update (insert m ((d_max_id d + 1)%N, 0%N) (new_stream c)) t (ODict (dict_set pd K_Contents v))) in *.
+    assert (Ns : forall sd c1, ODict pd <> OStream sd c1) by (intros; discriminate).
+    assert (Na : forall l, ODict pd <> OArr l) by (intros; discriminate).
+    eexists. split; [|split; [|split]].
+    - unfold replace_page_content. rewrite Ha. cbn [fst snd]. fold v. rewrite Hs. reflexivity.
+    - cbn [d_objects with_objs]. unfold page_content.
+      destruct (get_dictionary_grows_at m m2 t _ _ page pd G Gp Tp) as [-> _].
+      change S_Contents with K_Contents. rewrite dict_get_set_same. unfold v.
+      rewrite (dereference_one_hop m2 (d_max_id d + 1)%N 0%N (new_stream c) Ln I). reflexivity.
+    - intros q b Hq Hb. cbn [d_objects with_objs]. apply (page_content_keeps decode m m2 t _ _ G Ns Na); assumption.
+    - reflexivity.
+  Qed.
+
+  (* I_content for change_page_content on ANY page that has a Contents entry, whatever the entry is: the call succeeds; the
+     page then shows exactly what the ONE stream written decodes to -- the stream the page showed alone, rewritten in place by
+     set_plain_content + compress (only when no other page of the document shows that stream), or a fresh uncompressed stream
+     holding the content; every OTHER page of the document (a page whose dictionary is another object) with a defined content
+     shows what it showed before; the trailer is unchanged *)
+  Theorem cpc_content O d page pd c x :
+    alloc_ok d -> (d_max_id d < Renumber.U32_MAX)%N ->
+    get_dictionary (d_objects d) page = Some pd -> dict_get pd K_Contents = Some x ->
+    exists d' sd' c',
+      change_page_content O d page c = (d', OOk) /\
+      ((exists id sd c0, single_stream (d_objects d) x = Some id /\ is_content_stream_of_another_page d id page = false /\
+                         lookup (d_objects d) id = Some (OStream sd c0) /\
+                         OStream sd' c' = stream_obj (rewritten_stream O sd c0 c)) \/
+       OStream sd' c' = new_stream c) /\
+      page_content decode (d_objects d') page = Some (decode sd' c') /\
+      (forall q b, In q (page_iter d) -> get_object_mut_id (d_objects d) q <> get_object_mut_id (d_objects d) page ->
+                   page_content decode (d_objects d) q = Some b -> page_content decode (d_objects d') q = Some b) /\
+      d_trailer d' = d_trailer d.
+  Proof.
+    intros A Hmax Gp Ec. set (m := d_objects d) in *.
+    destruct (get_dictionary_target m page pd Gp) as [t [Tp Lt]].
+    assert (New : exists d' sd' c',
+              replace_page_content d page c = (d', OOk) /\
+              ((exists id sd c0, single_stream m x = Some id /\ is_content_stream_of_another_page d id page = false /\
+                                 lookup m id = Some (OStream sd c0) /\
+                                 OStream sd' c' = stream_obj (rewritten_stream O sd c0 c)) \/
+               OStream sd' c' = new_stream c) /\
+              page_content decode (d_objects d') page = Some (decode sd' c') /\
+              (forall q b, In q (page_iter d) -> get_object_mut_id m q <> get_object_mut_id m page ->
+                           page_content decode m q = Some b -> page_content decode (d_objects d') q = Some b) /\
+              d_trailer d' = d_trailer d).
+    { destruct (replace_page_content_content d page pd t c A Hmax Gp Tp Lt) as [d' [H1 [H2 [H3 H4]]]].
+      exists d', (new_dict c), c. split; [exact H1|]. split; [right; reflexivity|]. split; [exact H2|]. split; [|exact H4].
+      intros q b _ Hq Hb. apply H3; [|exact Hb]. fold m. rewrite <- Tp. exact Hq. }
+    unfold change_page_content. fold m. rewrite Gp, Ec.
+    destruct (single_stream m x) as [sid|] eqn:Hs; [|exact New].
+    destruct (is_content_stream_of_another_page d sid page) eqn:Hsh; [exact New|]. clear New.
+    destruct (single_stream_is_stream m x sid Hs) as [sd [c0 Ls]].
+    set (s' := rewritten_stream O sd c0 c).
+    destruct (ccs_content O d sid c sd c0 Ls) as [K1 [K2 _]]. fold s' in K1, K2. fold m in K1, K2.
+    exists (change_content_stream O d sid c), (s_dict s'), (s_content s').
+    split; [reflexivity|]. split; [left; exists sid, sd, c0; repeat split; assumption|].
+    split; [exact (K2 page pd x Gp Ec Hs)|]. split; [|apply ccs_frame].
+    intros q b Hin Hq Hb. apply K1; [|exact Hb].
+    unfold is_content_stream_of_another_page in Hsh. pose proof (existsb_false_in _ _ q Hsh Hin) as Hf. cbn beta in Hf.
+    fold m in Hf. destruct (oid_eqb q page) eqn:E; [|exact Hf]. apply oid_eqb_eq in E. subst q. exfalso. apply Hq. reflexivity.
   Qed.
 
   (* a page without a Contents entry: change_page_content reports an error and changes nothing *)
   Theorem cpc_no_contents O d page pd c :
-    lookup (d_objects d) page = Some (ODict pd) -> dict_get pd K_Contents = None ->
+    get_dictionary (d_objects d) page = Some pd -> dict_get pd K_Contents = None ->
     change_page_content O d page c = (d, OErr).
-  Proof.
-    intros L E. unfold change_page_content. rewrite (get_dictionary_direct _ page pd L), E. reflexivity.
-  Qed.
+  Proof. intros G E. unfold change_page_content. rewrite G, E. reflexivity. Qed.
 
   (* ---------- add_to_page_content = add_page_contents of the encoded operations ---------- *)
-  Theorem atpc_content d page pd ops :
-    doc_wf d -> alloc_ok d -> (d_max_id d < Renumber.U32_MAX)%N ->
-    lookup (d_objects d) page = Some (ODict pd) -> plain_contents (d_objects d) pd ->
+  Theorem atpc_content d page ops old :
+    alloc_ok d -> (d_max_id d < Renumber.U32_MAX)%N ->
+    page_content decode (d_objects d) page = Some old ->
     let c := encode_content ops in
-    exists d' old,
+    exists d',
       add_to_page_content d page ops = (d', OOk) /\
-      page_content decode (d_objects d) page = Some old /\
       page_content decode (d_objects d') page = Some (old ++ decode (new_dict c) c) /\
-      (forall q qd, q <> page -> lookup (d_objects d) q = Some (ODict qd) -> plain_contents (d_objects d) qd ->
-                    page_content decode (d_objects d') q = page_content decode (d_objects d) q) /\
+      (forall q b, get_object_mut_id (d_objects d) q <> get_object_mut_id (d_objects d) page ->
+                   page_content decode (d_objects d) q = Some b -> page_content decode (d_objects d') q = Some b) /\
       d_trailer d' = d_trailer d.
-  Proof. intros W A Hmax L P c. unfold add_to_page_content. apply (add_page_contents_plain decode d page pd c); assumption. Qed.
+  Proof. intros A Hmax H c. unfold add_to_page_content. apply (add_page_contents_content decode d page c old); assumption. Qed.
 End Content2.
